@@ -274,12 +274,23 @@ def OR(*cs) -> Cond:
 def canon_store(s: Store):
     """A store with its loop variables renamed L0, L1, ... (outer -> inner): (idx, op, value, loops [(lo, hi, step)], guards) as strings/forms.
     Makes update-shape rules independent of the names of loop variables."""
-    ren = {l.var: f"L{k}" for k, l in enumerate(s.loops)}
+    # loop variables renamed by depth, and every unit-step loop re-based to start at 0: `for n in range(l, size)` is `for m in range(size - l)` with n = l + m
+    ren: Dict[str, Poly] = {}
 
     def r(pv):
         if isinstance(pv, Poly):
-            return pv.subst(lambda at: Poly.sym(ren[at[1]]) if (at[0] == "s" and at[1] in ren) else None)
+            return pv.subst(lambda at: ren[at[1]] if (at[0] == "s" and at[1] in ren) else None)
         return pv
+    rebased = []
+    for k, l in enumerate(s.loops):
+        lo, hi, stp = r(l.lo), r(l.hi), r(l.step)
+        Lk = Poly.sym(f"L{k}")
+        if isinstance(lo, Poly) and isinstance(hi, Poly) and isinstance(stp, Poly) and stp == ONE and lo != ZERO and getattr(l, "kind", "range") == "range":
+            ren[l.var] = lo + Lk
+            rebased.append((ZERO, hi - lo, ONE))
+        else:
+            ren[l.var] = Lk
+            rebased.append((lo, hi, stp))
     val = s.value
     if isinstance(val, Ref):
         val = val.poly()
@@ -287,7 +298,7 @@ def canon_store(s: Store):
         val = tuple(r(x.poly() if isinstance(x, Ref) else x) for x in val)
     else:
         val = r(val)
-    loops = tuple((repr(r(l.lo)), repr(r(l.hi)), repr(r(l.step))) for l in s.loops)
+    loops = tuple((repr(a_), repr(b_), repr(c_)) for a_, b_, c_ in rebased)
     guards = tuple(sorted(str(norm_cond(_rename_cond(c, r))) for c in real_guards(s.guards)))
     if isinstance(val, Poly):
         _VALS[repr(val)] = val
